@@ -203,6 +203,8 @@ class RepeatedNodeWrapper(MutableSequence[_M]):
             assert not isinstance(value, Iterable)
             index = indexes.range_from_index(index, len(self._repeated.items)).start
             item = self._repeated.items[index]
+            if value is item:
+                return  # e.g. `wrapper[i] += 1` stores the item it has just updated in place
             self._repeated.token_store.splice(value.detach(), item.first_token, item.last_token)
             value.reattach(self._repeated.token_store)
             self._repeated.items[index] = value
@@ -366,6 +368,8 @@ class cached_custom_property(custom_property[_V, _U]):
         return value
 
     def __set__(self, instance: _U, value: _V) -> None:
+        if instance.__dict__.get(self._attr) is value:
+            return  # e.g. `model.tags += [...]` stores the view it has just extended in place
         super().__set__(instance, value)
         instance.__dict__[self._attr] = value
 
